@@ -568,3 +568,56 @@ func TestInlineClosure(t *testing.T) {
 		}
 	}
 }
+
+const srcWithLock = `package fix
+type M struct{ n int }
+func lock()
+func unlock()
+func sink()
+type run struct{ done bool; p *int; q *int }
+func (m *M) withLock(fn func()) {
+	lock()
+	fn()
+	unlock()
+}
+func g(m *M, x *int) {
+	r := &run{q: x}
+	if r.done {
+		sink() // unreachable: done starts false
+	}
+	m.withLock(func() {
+		m.n = 7
+	})
+}`
+
+func TestLiteralFieldsAndFuncParam(t *testing.T) {
+	f := fixture(t, srcWithLock, "g")
+	order := ""
+	res, err := Analyze(f, Config{NoHavoc: true, InlineClosures: true, Inline: inlineAll(f),
+		OnCall: func(st *State, call *ast.CallExpr, callee types.Object, d bool) {
+			if callee != nil && (callee.Name() == "lock" || callee.Name() == "unlock") {
+				order += callee.Name() + ";"
+			}
+		},
+		OnNode: func(st *State, n ast.Node) {
+			if as, ok := n.(*ast.AssignStmt); ok && len(as.Lhs) == 1 {
+				if sel, ok := as.Lhs[0].(*ast.SelectorExpr); ok && sel.Sel.Name == "n" {
+					order += "store;"
+				}
+			}
+		}})
+	if err != nil {
+		t.Fatal(err)
+	}
+	if len(res.At[callsNamed(f, "sink")[0]]) != 0 {
+		t.Errorf("zero value of an omitted bool field not learned")
+	}
+	if order != "lock;store;unlock;" {
+		t.Errorf("literal handed to a func parameter not interpreted where the helper calls it: %q", order)
+	}
+	for _, ex := range res.Exits {
+		if !hasFact(ex.State, ".n==7", True) || !hasFact(ex.State, "nil:r", False) {
+			t.Errorf("exit facts: %v", ex.State.Facts())
+		}
+	}
+}
